@@ -156,6 +156,15 @@ func (u *Unit) oblige(st *State, name, kind string, props []string, goal Term, p
 		props = u.props
 	}
 	name = u.stableText(name)
+	if u.fc != nil && strings.HasPrefix(name, "pre:") {
+		// "nochecks pre:CALLEE@NAME": the callee's precondition is not carried through this function (listed as an assumption)
+		for k := range u.fc.NoChecks {
+			if strings.HasPrefix(k, "pre:") && (name == k || strings.HasPrefix(name, k+"#")) {
+				u.assumptions["precondition of "+strings.TrimPrefix(k, "pre:")+" assumed at its calls in "+u.name+" (nochecks)"] = true
+				return
+			}
+		}
+	}
 	o := &Obligation{Name: u.name + "/" + name, Kind: kind, Props: props, PC: append([]Term(nil), st.pc...), Goal: goal, Pos: u.pos(pos), Info: info, Unit: u}
 	switch kind {
 	case "bounds", "div", "nil", "make", "sub", "conv", "overflow", "panic", "assertion", "alloc":
@@ -354,7 +363,10 @@ func (e *Engine) RunFunc(fn *types.Func, fc *FuncContract) (ru *Unit) {
 				u.fail("%s", string(eu))
 				return
 			}
-			panic(r)
+			// an internal error while executing the body (a construct the value model has no case for, e.g. a map
+			// keyed by a struct): the function is outside the supported subset on this tree - reported like any
+			// other unsupported construct instead of ending the whole check
+			u.fail("outside the supported subset (internal: %v) at %s", r, u.pos(u.curPos))
 		}
 	}()
 	if n := e.staleCallee(fc.Spec); n != "" {
